@@ -148,14 +148,16 @@ class Soap12(Soap11):
         nsmap = {'soap': self.ns_soap_env}
 
         code = self.generate_faultcode(element)
-        reason = element.find("soap:Reason/soap:Text", namespaces=nsmap).text.strip()
+        reason = element.find("soap:Reason/soap:Text", namespaces=nsmap)
+        reason = '' if reason is None else (reason.text or '').strip()
         role = element.find("soap:Role", namespaces=nsmap)
         node = element.find("soap:Node", namespaces=nsmap)
         detail = element.find("soap:Detail", namespaces=nsmap)
         faultactor = ''
+        # these are empty elements when there's no fault actor
         if role is not None:
-            faultactor += role.text.strip()
+            faultactor += (role.text or '').strip()
         if node is not None:
-            faultactor += node.text.strip()
+            faultactor += (node.text or '').strip()
         return cls(faultcode=code, faultstring=reason,
                    faultactor=faultactor, detail=detail)
